@@ -556,7 +556,8 @@ def value_item():
 
 def default_field():
     return st.one_of(st.just(''), st.just(''), st.integers(-5, 300).map(str), st.sampled_from(['-', '1-2', '0 0 0', '255 128 0 200']),
-                     st.sampled_from(NUMBERLIKE), st.sampled_from(NUMBERLIKE), short_text(8), short_text(8))
+                     st.sampled_from(NUMBERLIKE), st.sampled_from(NUMBERLIKE), short_text(8), short_text(8),
+                     st.sampled_from(['yes', 'Yes', 'NO', 'no', 'True', 'false', 'ON']))
 
 
 def kv_strategy(engine: bool):
@@ -605,27 +606,56 @@ def col_q():
     return st.tuples(*[st.integers(0, 510).map(lambda n: n / 2)] * 3).map(list)
 
 
+# Identifier arguments that the helper classes treat as "the default" (position in the descriptor -> default).
+HELPER_DEFAULTS = {
+    'origin': {1: 'origin'}, 'vecline': {1: 'origin'}, 'sidelist': {1: 'sides'}, 'sphere': {2: 'radius'},
+    'lightcone': {1: '_inner_cone', 2: '_cone', 3: '_light'},
+    'frustum': {1: '_fov', 2: '_nearplane', 3: '_farz', 4: '_light'},
+    'studio': {1: 'model'}, 'studioprop': {1: 'model'}, 'lightprop': {1: 'model'}, 'iconsprite': {1: 'model'},
+    'sprite': {1: 'model'}, 'keyframe': {1: 'targetname'},
+}
+
+
+def case_variants(word: str) -> list:
+    out = []
+    for v in (word.title(), word.upper(), word.swapcase(), word[:-1] + word[-1:].upper()):
+        if v != word and v not in out:
+            out.append(v)
+    return out
+
+
+def kw(base, *defaults):
+    """An identifier argument: free, exactly one of the helper's defaults, or a default in other capitalisation."""
+    variants = [v for d in defaults for v in case_variants(d)]
+    return st.one_of(base, st.sampled_from(list(defaults)), st.sampled_from(variants), st.sampled_from(variants))
+
+
 def helper_strategy():
     idn = uident(1, 6)
+    known_cased = sorted(v for n in KNOWN_HELPER_NAMES for v in case_variants(n))
     return st.one_of(
         st.sampled_from(NOARG_HELPERS).map(lambda n: [n]),
         st.tuples(st.sampled_from(['size', 'bbox']), vec_q(), vec_q()).map(list),
         st.tuples(st.just('color'), col_q()).map(list),
-        st.tuples(st.just('sphere'), col_q() | st.just([255.0, 255.0, 255.0]), idn | st.just('radius')).map(list),
+        st.tuples(st.just('sphere'), col_q() | st.just([255.0, 255.0, 255.0]), kw(idn, 'radius')).map(list),
         st.tuples(st.just('line'), col_q(), idn, idn, st.none() | st.tuples(idn, idn).map(list)).map(list),
         st.tuples(st.just('cylinder'), col_q(), idn, idn, st.integers(0, 3), idn, idn, idn, idn).map(list),
-        st.tuples(st.just('frustum'), idn | num_q(), idn | num_q(), idn | num_q(), idn | col_q(), idn | num_q()).map(list),
-        st.tuples(st.sampled_from(['origin', 'vecline', 'sidelist']), idn | st.sampled_from(['origin', 'sides'])).map(list),
+        st.tuples(st.just('frustum'), kw(idn, '_fov') | num_q(), kw(idn, '_nearplane') | num_q(), kw(idn, '_farz') | num_q(),
+                  kw(idn, '_light') | col_q(), idn | num_q()).map(list),
+        st.tuples(st.sampled_from(['origin', 'vecline', 'sidelist']), kw(idn, 'origin', 'sides')).map(list),
         st.tuples(st.sampled_from(['wirebox', 'obb']), idn, idn).map(list),
-        st.tuples(st.sampled_from(['iconsprite', 'sprite']), st.none() | path_text()).map(list),
+        st.tuples(st.sampled_from(['iconsprite', 'sprite']), st.none() | path_text() | kw(path_text(), 'model')).map(list),
         st.tuples(st.sampled_from(['studio', 'studioprop', 'lightprop']),
-                  st.none() | path_text() | path_text().map(lambda p: f'"{p}"')).map(list),
-        st.tuples(st.just('lightcone'), idn | st.just('_inner_cone'), idn | st.just('_cone'), idn | st.just('_light'),
+                  st.none() | path_text() | path_text().map(lambda p: f'"{p}"') | kw(path_text(), 'model')).map(list),
+        st.tuples(st.just('lightcone'), kw(idn, '_inner_cone'), kw(idn, '_cone'), kw(idn, '_light'),
                   num_q() | st.just(1.0)).map(list),
         st.tuples(st.just('lightconenew'), idn, idn, idn).map(list),
-        st.tuples(st.just('keyframe'), st.none() | idn).map(list),
+        st.tuples(st.just('keyframe'), st.none() | kw(idn, 'targetname')).map(list),
         st.tuples(st.just('appliesto'), tags_strategy()).map(list),
         st.tuples(st.just('orderby'), st.lists(kv_name(), max_size=4)).map(list),
+        # helper names that are known keywords in other capitalisation (HelperTypes / aliasof match exactly)
+        st.tuples(st.just('unknown_kw'), st.sampled_from(known_cased),
+                  st.lists(st.one_of(idn, st.integers(-9, 99).map(str)), max_size=3)).map(list),
         st.tuples(st.just('unknown'), idn, st.lists(st.one_of(idn, path_text(), st.integers(-9, 99).map(str), st.just('')),
                                                      max_size=4)).map(list),
     )
@@ -715,8 +745,8 @@ def build_helper(h):
     from srctools import fgd as F
     from srctools.math import Vec
     kind = h[0]
-    if kind == 'unknown':
-        name = 'x_' + h[1]
+    if kind in ('unknown', 'unknown_kw'):
+        name = 'x_' + h[1] if kind == 'unknown' else h[1]
         args = [a.strip() for a in h[2]]
         if args == ['']:
             args = []       # helper('') and helper() are the same text
@@ -815,6 +845,8 @@ def build_kv(kd, cs: bool, stats: Stats, engine: bool = False):
         stats.labels.add('desc_without_default')
     if any(c in default for c in '"\\\n'):
         stats.labels.add('default_needs_escape')
+    if default.casefold() in ('yes', 'no', 'true', 'false', 'on') and vt is not ValueTypes.SPAWNFLAGS:
+        stats.labels.add('default:boolish_word')
     if default in NUMBERLIKE and default and vt is not ValueTypes.SPAWNFLAGS:
         stats.labels.add('default:numberlike')
         if default != default.strip() or '+' in default:
@@ -882,6 +914,11 @@ def build_text_fgd(desc, stats: Stats):
         ent.helpers = [build_helper(h) for h in ed['helpers']]
         for h in ed['helpers']:
             stats.labels.add('helper:' + h[0])
+            for pos, default in HELPER_DEFAULTS.get(h[0], {}).items():
+                if isinstance(h[pos], str) and h[pos].casefold() == default:
+                    stats.labels.add('helper_arg:default_exact' if h[pos] == default else 'helper_arg:default_case_variant')
+                    if h[0] in ('origin', 'vecline', 'sidelist', 'lightcone') and h[pos] != default:
+                        stats.labels.add('helper_arg:omittable_default_case_variant')
         for kd in ed['kvs']:
             kv = build_kv(kd, cs, stats)
             key = kd['name'].casefold()
@@ -1317,7 +1354,9 @@ SUBCHECKS = [
                   'io_decays', 'io_valid', 'resources', 'res_tags', 'empty_tag_map', 'helper:unknown', 'helper:size', 'helper:frustum',
                   'empty_choice_name', 'default_needs_escape', 'default:numberlike',
                   'default:numberlike_not_bare_safe', 'choice:numberlike', 'name:non_ascii_class', 'name:non_ascii_kv',
-                  'name:non_ascii_io', 'name:non_ascii_helper_arg', 'name:non_ascii_res_path', 'name:non_ascii_res_tag')
+                  'name:non_ascii_io', 'name:non_ascii_helper_arg', 'name:non_ascii_res_path', 'name:non_ascii_res_tag',
+                  'helper_arg:default_exact', 'helper_arg:default_case_variant',
+                  'helper_arg:omittable_default_case_variant', 'helper:unknown_kw', 'default:boolish_word')
         + tuple('type:' + n for n in ('BASE', 'POINT', 'BRUSH', 'ROPES', 'TRACK', 'FILTER', 'NPC', 'EXTEND'))),
     Sub('binary', execute_binary, strategy=gen_bin_strategy, enumerate=binary_enumerate, quick=200, thorough=4000,
         quick_shards=8, floor=50, enum_counts_distinct=True,
